@@ -157,6 +157,9 @@ func (envRemoteSigner) Sign(payload []byte) ([]byte, []*x509.Certificate, error)
 		return nil, nil, rt.NewEnvError("sign")
 	}
 	sig := rt.Atom(rt.Name("signature"))
+	if wellBehaved {
+		rt.Assume(len(sig) > 0) // a well-behaved signer does not return an empty signature
+	}
 	signLog = append(signLog, signEvent{payload, sig})
 	n := 1
 	if !wellBehaved {
@@ -180,6 +183,9 @@ func (k *envKey) Sign(r io.Reader, digest []byte, opts crypto.SignerOpts) ([]byt
 		return nil, rt.NewEnvError("sign")
 	}
 	sig := rt.Atom(rt.Name("signature"))
+	if wellBehaved {
+		rt.Assume(len(sig) > 0) // a well-behaved signer does not return an empty signature
+	}
 	signLog = append(signLog, signEvent{contentOf(digest), sig})
 	return sig, nil
 }
